@@ -52,9 +52,16 @@ TRUSTED = [
     "ed25519_blake2b) enter the theorems as named hypotheses (lib_accepts_*), validated by the correspondence only",
 ]
 ASSUMPTIONS = [
-    "x_recover returns a square root with even parity for curve points (hypothesis xrec_ok of decode_encode_point)",
-    "lib_accepts_priv b = true <-> 0 < int(b) < n for 32-byte b (coincurve / python-ecdsa), validated by correspondence",
-    "SEC1 lift_x sound and complete w.r.t. the curve equation (hypotheses of compressed_uncompressed_same_point)",
+    "x_recover returns one of the two roots x, q - x on curve points (hypothesis of decode_encode_point; for "
+    "point_encode_decode_bits only 0 <= x_recover y <= q is needed and that is PROVED for the library's own code)",
+    "_inv inverts the two denominators of the Edwards addition formula (hypothesis of point_add_defining_eqs)",
+    "lib_accepts_priv b = true <-> 0 < int(b) < n for 32-byte b (coincurve.PrivateKey / ecdsa.SigningKey.from_string), "
+    "validated by correspondence only",
+    "nacl SigningKey / VerifyKey accept exactly the 32-byte strings; ed25519_blake2b.SigningKey is assumed to accept "
+    "exactly 32 bytes in the property-conformant model (false today: finding C12-blake2b-64)",
+    "SEC1 lift_x complete and sound w.r.t. the curve equation (hypotheses of compressed_uncompressed_same_point, "
+    "pub_is_k_G, not_a_point_rejected)",
+    "no group law, no n*G = 0, no square-root fact is proved: agreement with curve arithmetic is differential testing",
 ]
 BUDGET = {"quick": 170, "thorough": 1500}
 
